@@ -4,6 +4,7 @@ limits, destinations, formats, submission offsets, submission from a timer callb
 J1939-22 stacks; frames decoded by the reference codec.  DESIGN.md section 4 / C11."""
 import itertools
 
+from .. import rt
 from ..explore import explore, trim
 from ..runner import Acc, run_check
 from ..scen import Net
@@ -33,10 +34,38 @@ def call_msg(c):
     return m
 
 
+class HoldInSend:
+    """trace factory: numbers the line events application threads execute in j1939_22.py (send_pgn); holds the thread for 1 ms
+    at the chosen one"""
+
+    def __init__(self, point):
+        self.point = point
+        self.count = 0
+        self.where = None
+
+    def __call__(self, lt, idx):
+        if lt.kind != 'P':
+            return None
+        me = self
+
+        def tracer(frame, event, arg):
+            if not frame.f_code.co_filename.endswith('j1939_22.py'):
+                return tracer if event == 'call' else None
+            if event == 'line':
+                me.count += 1
+                if me.count == me.point:
+                    me.where = "%s:%d" % (frame.f_code.co_name, frame.f_lineno)
+                    rt.CUR.hold(0.001)
+            return tracer
+        return tracer
+
+
 def run_one(sc, prefix=(), seed=0, keep=False):
     nsc = {'dll': DLL, 'base_lat': sc.get('base_lat', 1e-3), 'wake_grid': sc.get('wake_grid'), 'send_cost': sc.get('send_cost', 0.0),
            'stacks': [{'name': 'A', 'cas': [A_], 'win': 1}, {'name': 'B', 'cas': [B_], 'win': 1}, {'name': 'C', 'cas': [C_], 'win': 1}]}
-    net = Net(nsc, prefix)
+    hold = HoldInSend(sc['preempt']) if sc.get('preempt') is not None else None
+    net = Net(nsc, prefix, trace_factory=hold)
+    app_exc = []
     try:
         w = net.w
         A = net.stacks[0]
@@ -58,11 +87,25 @@ def run_one(sc, prefix=(), seed=0, keep=False):
             m = call_msg(c)
             if c.get('via') == 'timer':
                 A.ecu.add_timer(t + 0.001, lambda cookie, m=m, i=i: net.submit(m, seed + i) and False)
+            elif c.get('via') == 'thread':
+                # submitted by a controlled application thread (which the scenario may pre-empt inside send_pgn)
+                def app(m=m, i=i):
+                    try:
+                        net.submit(m, seed + i)
+                    except rt.Killed:
+                        raise
+                    except BaseException as e:
+                        app_exc.append(type(e).__name__)
+                w.at(w.now + t, lambda app=app: w.spawn(app, name='app'))
             else:
                 w.at(w.now + t, lambda m=m, i=i: net.submit(m, seed + i))
         tmax = max(c['tl'] for c in sc['calls'])
         w.run_for(t + tmax + 0.05 + (3.5 if sc.get('transfer') else 0.0))
         probs = []
+        for e in app_exc:
+            probs.append("send_pgn raised %s in the application thread" % e)
+        if hold is not None:
+            sc['_line_events'] = hold.count
         # ---- decode every frame A emitted
         groups = []        # (t, format, dest, cpgn, payload)
         for f in net.bus.log:
@@ -98,7 +141,7 @@ def run_one(sc, prefix=(), seed=0, keep=False):
                     probs.append("C-PG header with TOS %d / trailer format %d" % (tos, tf))
                 groups.append([f.t, fmt, dest, cpgn, pl, False])
         # ---- match submitted groups
-        lam = max(sc.get('wake_grid') or [50e-6]) + 2e-4 + 2 * sc.get('send_cost', 0.0)
+        lam = max(sc.get('wake_grid') or [50e-6]) + 2e-4 + 2 * sc.get('send_cost', 0.0) + (1e-3 if hold is not None else 0.0)
         for (m, r, _b0, _b1, data) in net.sent:
             if m['size'] > 60:
                 continue                     # the connection-mode transfer in the background (judged by the delivery oracle)
@@ -145,6 +188,8 @@ def csig(probs):
 
 
 def worker(item):
+    if item[0] == 'preempt':
+        return preempt_worker(item)
     chunk, bound, seed = item
     acc = Acc()
     for sc in chunk:
@@ -157,6 +202,32 @@ def worker(item):
             if probs:
                 acc.violation(csig(probs), sc, trim(choices), probs[:3])
     acc.sample({'scenario': chunk[0], 'deviation_bound': bound})
+    return acc
+
+
+def preempt_worker(item):
+    """an application thread is suspended for 1 ms at every source line of its send_pgn call while the job thread sends the
+    collection buffer the call is about to join (the first group's time limit runs out meanwhile)"""
+    _k, l2, off, seed = item
+    acc = Acc()
+    base = {'calls': [{'len': 8, 'tl': 0.010, 'tg': 'B', 'off': 0.0, 'via': 'app'},
+                      {'len': l2, 'tl': 0.05, 'tg': 'B', 'off': off, 'via': 'thread'}]}
+    sc0 = dict(base, preempt=0)
+    run_one(sc0, (), seed)
+    n = sc0.get('_line_events', 0)
+    sc1 = dict(base, preempt=0)
+    run_one(sc1, (), seed)
+    if not n or n != sc1.get('_line_events'):
+        acc.violation("HARNESS: line-event numbering of the application thread not reproducible", base, None, [repr((n, sc1.get('_line_events')))])
+        return acc
+    for pt in range(1, n + 1):
+        sc = dict(base, preempt=pt)
+        points, probs, outcome, _ = run_one(sc, (), seed)
+        sc.pop('_line_events', None)
+        acc.case(repr(sc), nontrivial=True, outcome=outcome)
+        if probs:
+            acc.violation(csig(probs), sc, None, probs[:3])
+    acc.sample({'scenario': base, 'line_events': n})
     return acc
 
 
@@ -260,6 +331,9 @@ def run(tier, seed):
     for b in (1, 2):
         heavy = [s for (s, bb) in sc if bb == b]
         items += [(heavy[i:i + 12], b, seed) for i in range(0, len(heavy), 12)]
+    for l2 in (8, 57):
+        for off in (0.0093, 0.0095, 0.0097, 0.0099, 0.01003, 0.0102):
+            items.append(('preempt', l2, off, seed))
     return run_check(PROP, tier, seed, 'exploration', items, worker, RULE, ASSUME,
                      bounds={'sequence_length': '1..3 (12 homogeneous)' if tier == 'quick' else '1..4 (12 homogeneous)',
                              'wake_deviation_bound': 1})
